@@ -32,15 +32,10 @@ def coefficients(name):
 
 
 def _formula(cs, x0, x1, s, mul, add, lift):
-    'C0 + C1 x0 + C2 x1 + C3 x0 x1 + C4 x0^2 + s (E0 + E1 x1), written once for both worlds'
+    'C0 + (C1 + C3 x1 + C4 x0 + E0 s) x0, written once for both worlds (Horner form keeps the nutils graphs small)'
     C0, C1, C2, C3, C4, E0, E1 = cs
-    r = lift(C0)
-    r = add(r, mul(lift(C1), x0))
-    r = add(r, mul(lift(C2), x1))
-    r = add(r, mul(lift(C3), mul(x0, x1)))
-    r = add(r, mul(lift(C4), mul(x0, x0)))
-    r = add(r, mul(add(lift(E0), mul(lift(E1), x1)), s))
-    return r
+    inner = add(add(add(lift(C1), mul(lift(C3), x1)), mul(lift(C4), x0)), mul(lift(E0), s))
+    return add(lift(C0), mul(inner, x0))
 
 
 # ------------------------------------------------------------------ reference
@@ -121,9 +116,11 @@ def world():
     'mesh, geometry, sample and the nutils arrays of the variables (shared by both namespaces)'
     if 'world' not in _nscache:
         from nutils import mesh, function
-        topo, x = mesh.rectilinear([numpy.array(g) for g in XGRID])
+        # integer-shaped rectilinear meshes have a basis-free geometry (much cheaper to lower); scale it to XGRID
+        topo, x0 = mesh.rectilinear([2, 1])
+        x = x0 * numpy.array([XGRID[0][1], XGRID[1][1]])
         smp = topo.interfaces.sample('gauss', 1)
-        s = topo.basis('discont', degree=0) @ numpy.array(SIDE)
+        s = function.get(numpy.array(SIDE), 0, topo.f_index)   # piecewise constant (cheaper to lower than a discontinuous basis)
         arrays = {}
         for name in SHAPES:
             cs = coefficients(name)
@@ -169,3 +166,23 @@ def namespace(version):
 
 def sample():
     return world()[2]
+
+
+def flat_namespace(version):
+    '''the same namespace with every variable replaced by its (constant) value in the
+    evaluation point; for strings without gradient, jump, mean, normal, geometry'''
+    V = refvars()
+    if version == 2:
+        from nutils import expression_v2
+        ns = expression_v2.Namespace()
+        for name in SHAPES:
+            setattr(ns, name, V[name].c[0, ..., 0].copy())
+        ns.f = nutils_f
+        ns.g = nutils_g
+        ns.h = nutils_h
+    else:
+        from nutils import expression_v1
+        ns = expression_v1.Namespace(functions=dict(f=nutils_f, g=nutils_g, h=nutils_h, m=nutils_m))
+        for name in SHAPES:
+            setattr(ns, name, V[name].c[0, ..., 0].copy())
+    return ns
